@@ -79,6 +79,8 @@ pub fn doc_of(s: &Sexp) -> R<Value> {
     let (tag, args) = head(s)?;
     Ok(match (tag, args.len()) {
         ("null", 0) => Value::Null,
+        // negative zero: a document value that is mathematically 0
+        ("nz", 0) => Number::from_f64(-0.0).map(Value::Number).ok_or("negative zero")?,
         ("b", 1) => Value::Bool(boolean(&args[0])?),
         ("i", 1) => {
             let a = atom(&args[0])?;
